@@ -1389,7 +1389,7 @@ func (t *tr) callee(x *ast.CallExpr, c *ectx) (*funcInfo, []string) {
 	}
 	for _, a := range x.Args {
 		v := t.expr(a, c)
-		if fi.extern && t.rat() && isFloat(t.typeOf(a)) {
+		if fi.extern && !fi.noFuel && t.rat() && isFloat(t.typeOf(a)) {
 			v = "(F64.fin " + v + ")" // an exact weight handed to code of another package that computes on float64
 		}
 		args = append(args, v)
@@ -4758,7 +4758,7 @@ func mergeExterns(ms ...map[string]externFn) map[string]externFn {
 // length (a closure that writes to the receiver) and the `default:` case of the decoder (the generic
 // `store.DecodeAndMergeWith` on the receiver as a `Store`) are oracles.  `Bins` (goroutine) and the protobuf
 // methods are not translated.
-var paginatedUnit = transUnit{Dir: "ddsketch/store", File: "CodePaginated", NS: "DDS.Gen.Paginated", Mode: "rat",
+var paginatedUnit = transUnit{Dir: "ddsketch/store", File: "CodePaginated", NS: "DDS.Gen.Paginated", Mode: "rat", JoinIfs: true,
 	Imports:     denseUnit.Imports,
 	ExternTypes: denseUnit.ExternTypes, ExternVars: denseUnit.ExternVars,
 	ExternFuncs: mergeExterns(denseUnit.ExternFuncs, storeDecodeUnit.ExternFuncs),
@@ -4788,6 +4788,9 @@ var paginatedUnit = transUnit{Dir: "ddsketch/store", File: "CodePaginated", NS: 
 		"BufferedPaginatedStore.AddWithCount", "BufferedPaginatedStore.AddBin", "BufferedPaginatedStore.IsEmpty",
 		"BufferedPaginatedStore.TotalCount", "BufferedPaginatedStore.MinIndex", "BufferedPaginatedStore.MaxIndex",
 		"BufferedPaginatedStore.Copy", "BufferedPaginatedStore.Clear", "BufferedPaginatedStore.Reweight",
+		"BufferedPaginatedStore.minIndexWithCumulCount", "BufferedPaginatedStore.KeyAtRank",
+		"BufferedPaginatedStore.ForEach", "BufferedPaginatedStore.Encode", "BufferedPaginatedStore.MergeWith",
+		"BufferedPaginatedStore.DecodeAndMergeWith",
 	}}
 
 func init() {
